@@ -348,6 +348,14 @@ def check_sampler(mon, R, O, tier, rng, label, op=None, extra=None):
         # multiplicity errors of composed samplers show up here even when they are spatially fine-grained
         sr = O.A.nominal(ref).astype(int) * 2 + O.B.nominal(ref).astype(int)
         sp = O.A.nominal(P).astype(int) * 2 + O.B.nominal(P).astype(int)
+        # draws that are in neither operand by the *nominal* (two-valued) membership are boundary-margin cases
+        # (definitely-outside draws are reported by the membership contract above): leave them out here
+        n_neither = int((sp == 0).sum())
+        if n_neither:
+            mon.skip("signature_draws_in_boundary_margin", n_neither)
+        sr, sp = sr[sr != 0], sp[sp != 0]
+        if len(sp) < 30 or len(sr) < 30:
+            return
         s2, df2, p2 = ro.homogeneity(np.bincount(sr, minlength=4), np.bincount(sp, minlength=4))
         mon.bump("operand_signature_tests")
         if p2 < ALPHA and p2 < pval:
